@@ -27,9 +27,9 @@ Definition spec_where (w : where_) (s : sstate) : sstate * list string * outcome
   | WFinally => (s, ["t"], OErr KRuntime (exc_msg 3))
   | WFinallyRet => (s, [], OErr KRuntime (exc_msg 4))
   | WClassDef | WClassDefNested => (s, [], OErr KRuntime superclass_msg)
-  | WCapture => (s_def GLeak (VClosure false 41) s, [], OErr KRuntime (exc_msg 1))   (* c = || x completed *)
+  | WCapture => (s_def GLeak (VClosure 41) s, [], OErr KRuntime (exc_msg 1))   (* c = || x completed *)
   | WBuiltin => (s, ["nf"], OErr KAttr attr_msg)
-  | WCaptureFiber => (s_def GLeak (VClosure false 41) s, [], OErr KRuntime (exc_msg 1))
+  | WCaptureFiber => (s_def GLeak (VClosure 41) s, [], OErr KRuntime (exc_msg 1))
   end.
 
 (* loading a module that is not imported yet: what it prints, whether it completes, the loader calls *)
@@ -73,11 +73,11 @@ Definition spec_snippet (s : sstate) (sn : snip) : sstate * obs :=
   | SnTryFin => (s, sobs ["t"; "f"] OOk [])
   | SnTryCatch => (s, sobs ["7"] OOk [])
   | SnFiberOk => (s, sobs ["5"] OOk [])
-  | SnCaptureOk => (s_def GLeak (VClosure false 42) s, sobs [] OOk [])
+  | SnCaptureOk => (s_def GLeak (VClosure 42) s, sobs [] OOk [])
   | SnRange k => (s, sobs (map show_nat (seq 0 (depth_nat k))) OOk [])
   | SnUseLeak =>
       match s_globals s GLeak with
-      | Some (VClosure _ z) => (s, sobs [show_Z z] OOk [])
+      | Some (VClosure z) => (s, sobs [show_Z z] OOk [])
       | _ => (s, sobs [] (OErr KName (name_error "c")) [])
       end
   | SnImport m =>
@@ -105,16 +105,15 @@ Fixpoint s_history (s : sstate) (h : history) : list obs :=
   end.
 Definition eval_spec (h : history) : list obs := s_history s_init h.
 
-(* ---------- the named classes of histories on which the code departs from the Spec ---------- *)
+(* ---------- the named class of histories on which the code departs from the Spec ---------- *)
 (* failed_import_poisons_module: an import whose closure contains a module whose body failed earlier (no RESET in
-   between).  open_upvalue_after_failed_run: print(c()) where c captured a local of a frame whose fiber CALLED the fiber that
-   failed (WCaptureFiber), not re-created since. *)
-Inductive known_class := KFailedImport | KOpenUpvalue.
+   between). *)
+Inductive known_class := KFailedImport.
 
-Record kstate := mkK { k_poisoned : modk -> bool; k_leak : bool }.
-Definition k_init : kstate := mkK (fun _ => false) false.
+Record kstate := mkK { k_poisoned : modk -> bool }.
+Definition k_init : kstate := mkK (fun _ => false).
 Definition k_poison (m : modk) (k : kstate) : kstate :=
-  mkK (fun x => if modk_eqb m x then true else k_poisoned k x) (k_leak k).
+  mkK (fun x => if modk_eqb m x then true else k_poisoned k x).
 
 Definition scan_snippet (k : kstate) (sn : snip) : kstate * option known_class :=
   match sn with
@@ -122,10 +121,6 @@ Definition scan_snippet (k : kstate) (sn : snip) : kstate * option known_class :
   | SnImport MNest =>
       if k_poisoned k MNest || k_poisoned k MThrow then (k_poison MNest k, Some KFailedImport)
       else (k_poison MNest (k_poison MThrow k), None)
-  | SnThrow WCaptureFiber _ => (mkK (k_poisoned k) true, None)
-  | SnThrow WCapture _ => (mkK (k_poisoned k) false, None)
-  | SnCaptureOk => (mkK (k_poisoned k) false, None)
-  | SnUseLeak => (k, if k_leak k then Some KOpenUpvalue else None)
   | SnReset => (k_init, None)
   | _ => (k, None)
   end.
@@ -143,7 +138,6 @@ Definition show_known (o : option known_class) : string :=
   match o with
   | None => "-"
   | Some KFailedImport => "failed_import_poisons_module"
-  | Some KOpenUpvalue => "open_upvalue_after_failed_run"
   end.
 
 (* ---------- entry points for the tie (tools/props/C15.py) ----------
@@ -169,7 +163,6 @@ Definition c_outcome (o : outcome) : string :=
   | OOk => "ok"
   | OErr k msg => "err:" ++ kind_s k ++ ":" ++ msg_code msg
   | OPanic msg => "panic:" ++ msg_code msg
-  | OCrash => "crash"
   | ODiverged why => "diverged:" ++ hex_of_string why
   | OReset => "reset"
   end.
@@ -183,7 +176,7 @@ Definition c_h5 (core : nat) (c : carried) : string :=
      show_b01 (c_classdef c); show_nat (S (count_mods (c_mods c))); show_nat (core + c_chunks c); show_nat core;
      show_nat (List.length (c_ranges c))].
 Definition c_known (o : option known_class) : string :=
-  match o with None => "-" | Some KFailedImport => "I" | Some KOpenUpvalue => "U" end.
+  match o with None => "-" | Some KFailedImport => "I" end.
 
 Fixpoint c_rows (core : nat) (ss : list obs) (ms : list (obs * carried)) (ks : list (option known_class)) : list string :=
   match ss, ms, ks with
